@@ -1,0 +1,29 @@
+//go:build verif
+// +build verif
+
+// Contracts for package hdkeychain, checked by /verif/cmd/govc (comment-only file; see /verif/DESIGN.md, C14).
+package hdkeychain
+
+// H4 (serialisation helper): result = dst ++ 0^(max(0,size-len(src))) ++ src
+//@ func paddedAppend
+//@   props C14 C19
+//@   requires disjoint(dst, src) && size <= 1024 && len(dst) <= 4096 && len(src) <= 4096
+//@   ensures mathint(size) >= len(src) ==> len(result) == len(dst) + mathint(size)
+//@   ensures mathint(size) < len(src) ==> len(result) == len(dst) + len(src)
+//@   ensures bytesEq(result, 0, old(dst), 0, len(dst))
+//@   ensures forall j int :: len(dst) <= j && j < len(result)-len(src) ==> result[j] == 0
+//@   ensures bytesEq(result, len(result)-len(src), old(src), 0, len(src))
+//@   loop#1 invariant 0 <= i && (i <= mathint(size)-len(src) || i == 0) && len(dst) == old(len(dst)) + i
+//@   loop#1 invariant unchanged(src) && (dst == nil || disjoint(dst, src))
+//@   loop#1 invariant bytesEq(dst, 0, old(dst), 0, old(len(dst)))
+//@   loop#1 invariant forall j int :: old(len(dst)) <= j && j < len(dst) ==> dst[j] == 0
+//@   loop#1 decreases mathint(size) - len(src) - i
+
+// H4 (parsing): a returned key has the field layout of the 78-byte payload; a private key scalar is in [1, N-1]
+//@ func NewKeyFromString
+//@   props C14 C19
+//@   modifies gmap("bigval")
+//@   ensures err == nil ==> result != nil && len(result.version) == 4 && len(result.parentFP) == 4 && len(result.chainCode) == 32
+//@   ensures err == nil && result.isPrivate ==> len(result.key) == 32 && 0 < beval(result.key) && beval(result.key) < curveN()
+//@   ensures err == nil && !result.isPrivate ==> len(result.key) == 33
+//@   ensures err != nil ==> result == nil
